@@ -120,9 +120,12 @@ DESTS = {
     "sections.zo": "# Dest2 +dp\n\n- 200101#d3 top\n\n################################ Sec one\n- 200101#d4 in section\n\n",
     "nonl.zo": "# Dest3\n\n- 200101#d5 last item, no blank line after it\n",
     "empty.zo": "# Dest4\n\n",
+    "stub2.zo": "# Dest5 first header line\n# second header line @ctx\n\n",
 }
 MENTION = {"mention.zo": "# Mentions\n\n- 240105#m1 see 240105#m2 please\n- 240105#m2 the target note\n  * with a bullet\no P2 240105#m3 unrelated\n\n",
            # mentions that are NOT the note's own line and are not space-delimited: punctuation after the ZID, and a longer ZID with the same prefix
+           # inherited tags (title) that are proper prefixes of tags the note carries itself
+           "inherit.zo": "# Inherit +work @pc #area\n\n- 240107#i1 prepare the +workshop on the @pcb for #area51\no P2 240107#i2 plain inheriting todo\n\n",
            "mention2.zo": "# Mentions2\n\n- 240106#p1 see 240106#p2. and (240106#p2)\n- 240106#q00 has a longer ZID\n- 240106#p2 punctuated target\no 240106#q0 prefix target\n\n"}
 
 
@@ -150,8 +153,8 @@ def moves(tier, seed):
     # directed moves (always run): mentioned / punctuated / prefix-colliding ZIDs, templated destinations
     pages = dict(DESTS)
     pages.update(MENTION)
-    for zid in ("240105#m2", "240106#p2", "240106#q0", "200101#d1", "240105#m3"):
-        for dest, marker in (("tmpl_old.zo", None), ("tmpl_fresh.zo", "x"), ("notes.zo", "~")):
+    for zid in ("240105#m2", "240106#p2", "240106#q0", "200101#d1", "240105#m3", "240107#i1", "240107#i2"):
+        for dest, marker in (("tmpl_old.zo", None), ("tmpl_fresh.zo", "x"), ("notes.zo", "~"), ("empty.zo", None), ("stub2.zo", None)):
             try:
                 err, info = check_move(pages, zid, dest, marker)
             except Exception as e:
